@@ -1,6 +1,9 @@
 package simrt
 
-import "sync"
+import (
+	"sync"
+	"unsafe"
+)
 
 // PoolState is the storage behind simsync.Pool: a deterministic stack that is
 // emptied at the start and end of every run, so a run never depends on what an
@@ -21,44 +24,59 @@ var (
 	pools   []*PoolState
 )
 
+//go:norace
 func resetPools() {
-	poolsMu.Lock()
+	qlock(&poolsMu)
 	for _, p := range pools {
-		p.mu.Lock()
+		qlock(&p.mu)
 		p.items = nil
 		p.Gets, p.Hits = 0, 0
-		p.mu.Unlock()
+		qunlock(&p.mu)
 	}
-	poolsMu.Unlock()
+	qunlock(&poolsMu)
 }
 
 // PoolReuse returns total gets and hits over all pools in this run.
+//
+//go:norace
 func PoolReuse() (gets, hits int) {
-	poolsMu.Lock()
+	qlock(&poolsMu)
 	for _, p := range pools {
-		p.mu.Lock()
+		qlock(&p.mu)
 		gets += p.Gets
 		hits += p.Hits
-		p.mu.Unlock()
+		qunlock(&p.mu)
 	}
-	poolsMu.Unlock()
+	qunlock(&poolsMu)
 	return
 }
 
+//go:norace
 func (p *PoolState) register() {
 	if !p.reg {
 		p.reg = true
-		poolsMu.Lock()
+		qlock(&poolsMu)
 		pools = append(pools, p)
-		poolsMu.Unlock()
+		qunlock(&poolsMu)
 	}
 }
 
 // Get pops an object (LIFO by default).
+//
+//go:norace
 func (p *PoolState) Get() (any, bool) {
+	x, ok := p.get()
+	if ok && RaceEnabled {
+		RaceAcquire(poolRaceAddr(x))
+	}
+	return x, ok
+}
+
+//go:norace
+func (p *PoolState) get() (any, bool) {
 	s := Active()
-	p.mu.Lock()
-	defer p.mu.Unlock()
+	qlock(&p.mu)
+	defer qunlock(&p.mu)
 	p.register()
 	p.Gets++
 	n := len(p.items)
@@ -78,19 +96,38 @@ func (p *PoolState) Get() (any, bool) {
 		}
 	}
 	x := p.items[i]
-	p.items = append(p.items[:i], p.items[i+1:]...)
+	for j := i; j+1 < n; j++ { // manual shift: the runtime's slice copy reports to the race detector
+		p.items[j] = p.items[j+1]
+	}
+	p.items[n-1] = nil
+	p.items = p.items[:n-1]
 	p.Hits++
 	return x, true
 }
 
+// poolRaceAddr mirrors sync.Pool: Put(x) happens before the Get that returns x.
+var poolRaceHash [128]uint64
+
+//go:norace
+func poolRaceAddr(x any) unsafe.Pointer {
+	ptr := uintptr((*[2]unsafe.Pointer)(unsafe.Pointer(&x))[1])
+	h := uint32((uint64(uint32(ptr)) * 0x85ebca6b) >> 16)
+	return unsafe.Pointer(&poolRaceHash[h%uint32(len(poolRaceHash))])
+}
+
 // Put pushes an object.
+//
+//go:norace
 func (p *PoolState) Put(x any) {
-	p.mu.Lock()
+	if RaceEnabled {
+		RaceReleaseMerge(poolRaceAddr(x))
+	}
+	qlock(&p.mu)
 	p.register()
 	if len(p.items) < 1024 {
 		p.items = append(p.items, x)
 	}
-	p.mu.Unlock()
+	qunlock(&p.mu)
 }
 
 // AllocProbe is called (in instrumented builds) at the top of
@@ -98,9 +135,13 @@ func (p *PoolState) Put(x any) {
 var allocProbe func(n int)
 
 // SetAllocProbe installs the observer of buffer growth requests.
+//
+//go:norace
 func SetAllocProbe(fn func(n int)) { allocProbe = fn }
 
 // AllocProbe reports a buffer growth request.
+//
+//go:norace
 func AllocProbe(n int) {
 	if fn := allocProbe; fn != nil {
 		fn(n)
